@@ -24,7 +24,9 @@ CLAIM = dict(
     "volume, both branches of Geometry.integrate, area resampling of array volumes): integrate on a fresh object = "
     "sum of data x effective voxel volume per trailing index; the effective volumes at any resolution add up to the "
     "geometry's total volume; linearity; the same piecewise-constant field integrates to the same value at integer-factor "
-    "coarser and finer resolutions (scalar volumes in any dimension, array volumes in 2-D); normalize => equal integrals "
+    "coarser and finer resolutions (scalar AND array volumes in any dimension: spec_array_coarsen_nd / spec_array_refine_nd); the weighted, "
+    "extruded, porous and extruded-porous kinds have effective volume = voxel volume x weight (x porosity x depth) and their constructors "
+    "yield well-formed fresh objects; normalize => equal integrals "
     "(guard: integral != 0); and history independence for ALL histories by an invariant on reachable states "
     "(with the negation for the pre-fix scalar branch, witness [native, coarse, native]). The model is tied to the real "
     "classes by per-call return values over all histories up to length 3 (quick) / 4-5 (thorough) on all geometry, weight and data kinds.",
